@@ -110,8 +110,8 @@ Lemma loop_spec data : forall acc bits,
 Proof.
   induction data as [|v tl IH]; intros acc bits HF Hb Ha.
   - exists acc, bits, []. cbn [cb_loop]. repeat split; auto.
-    + rewrite lenN_nil. lia.
-    + rewrite lenN_nil, N.mul_0_r, N.pow_0_r, !val_nil. lia.
+    + rewrite lenN_nil. clear; lia.
+    + rewrite lenN_nil, N.mul_0_r, N.pow_0_r, !val_nil. clear; lia.
   - inversion HF as [|? ? Hv HF']; subst.
     destruct (Hstep acc bits v Hb Ha Hv) as (b1 & out1 & Hem & Hb1 & Ha1 & HF1 & Hl1 & He1).
     destruct (IH (acc1 acc v) b1 HF' Hb1 Ha1) as (acc' & bits' & rest & Hlp & Hb' & Ha' & HFr & Hlr & Her).
@@ -119,17 +119,19 @@ Proof.
     cbn [cb_loop]. fold (acc1 acc v). rewrite Hem. cbn [rbind]. rewrite Hlp. cbn [rbind].
     repeat split; auto.
     + apply Forall_app. auto.
-    + rewrite lenN_app, lenN_cons. lia.
+    + rewrite lenN_app, lenN_cons. clear - Hl1 Hlr. lia.
     + rewrite lenN_cons, val_cons, val_app.
-      replace (f * (lenN tl + 1)) with (f + f * lenN tl) by lia. rewrite N.pow_add_r.
+      replace (f * (lenN tl + 1)) with (f + f * lenN tl) by (clear; lia). rewrite N.pow_add_r.
       assert (Hp : 2 ^ b1 * 2 ^ (f * lenN tl) = 2 ^ bits' * 2 ^ (t * lenN rest)).
-      { rewrite <- !N.pow_add_r. f_equal. lia. }
+      { rewrite <- !N.pow_add_r. f_equal. clear - Hlr. lia. }
+      clear Hem Hlp Hstep IH.
       set (A := 2 ^ (f * lenN tl)) in *. set (B := 2 ^ b1) in *. set (C := 2 ^ bits') in *.
       set (D := 2 ^ (t * lenN rest)) in *. set (F := 2 ^ f) in *.
       set (X := acc mod 2 ^ bits) in *. set (X1 := acc1 acc v mod B) in *. set (X' := acc' mod C) in *.
       set (O1 := val t out1) in *. set (R := val t rest) in *. set (T := val f tl) in *.
-      transitivity ((X * F + v) * A + T); [lia|]. rewrite He1.
-      transitivity (O1 * (B * A) + (X1 * A + T)); [lia|]. rewrite Hp, Her. lia.
+      clearbody A B C D F X X1 X' O1 R T.
+      transitivity ((X * F + v) * A + T); [clear; lia|]. rewrite He1.
+      transitivity (O1 * (B * A) + (X1 * A + T)); [clear; lia|]. rewrite Hp, Her. clear; lia.
 Qed.
 End Loop.
 
